@@ -444,6 +444,14 @@ func (e *Explorer) Explore() {
 		if !res.skipped {
 			st.Executions++
 			st.Validated++
+			if doSelf && len(st.Samples) < 2 && res.obs != "" {
+				// an actual explored case, written out: its choice list, the labels of the choice points and what was observed
+				o := res.obs
+				if len(o) > 400 {
+					o = o[:400] + "…"
+				}
+				st.Samples = append(st.Samples, map[string]any{"choices": choicesOf(res.trace), "choice_labels": labelsOf(res.trace), "observed": strings.TrimSpace(o)})
+			}
 			if doSelf {
 				checked++
 				ch := choicesOf(res.trace)
